@@ -1,6 +1,6 @@
 (* C01 — non-vacuity, the pre-repair behaviours, and the resource finding. *)
 From Coq Require Import ZArith List Bool String Lia.
-From Verif Require Import C01.Model C01.Spec C01.Proofs.
+From Verif Require Import C01.Model C01.Spec C01.Proofs C01.Bounds.
 Import ListNotations.
 Open Scope Z_scope.
 Open Scope string_scope.
@@ -61,3 +61,9 @@ Proof.
   assert (H1 : 1000000000 <= 3 * 9 ^ 9) by (vm_compute; discriminate).
   exact (Z.le_trans _ _ _ H1 (log2_pow9 (9 ^ 9) H0)).
 Qed.
+
+(* the guards of the bounded primitives: 2**100000 passes (and has 100001 bits <= 10^6), 9**(9**9) does not *)
+Example ex_guard_pow_passes : Bounds.bits 2 * 100000 <= 1000000 /\ Bounds.bits (2 ^ 100000) <= 1000000.
+Proof. split; [vm_compute; discriminate|]. apply Bounds.bounded_pow_result_bits; [lia|vm_compute; discriminate]. Qed.
+Example ex_guard_pow_refuses : ~ (Bounds.bits 9 * (9 ^ 9) <= 1000000).
+Proof. vm_compute. intro H. apply H. reflexivity. Qed.
